@@ -12,8 +12,19 @@ What is modelled
   bindings in declared order, no duplicates), `Faults` are the single-fault mutation classes of the statement.
   TLC enumerates the stratified document domain (<= 2 bindings per kind: scalar options of one and of two kubernetes
   bindings, selectors, names x groups x includes, schedules/onStartup/settings, webhook bindings, fault base documents;
-  MC_thorough.cfg exhaustive, MC_quick.cfg a seeded random subset of 1000 documents per stratum + all faults), checks DomainWellFormed / FaithfulLoad / Defaults / FaultRejected / GroupSnapshots
+  MC_thorough.cfg exhaustive, MC_quick.cfg a seeded random subset of 1000 documents per stratum + all faults), checks DomainWellFormed / FaithfulLoad / Defaults / LegacyLoad / FaultRejected / GroupSnapshots
   on every case and prints every case with the expected result.
+  The legacy format (a document without configVersion: onStartup, schedule {name, crontab, allowFailure}, onKubernetesEvent
+  {name, kind, event, selector, objectName, namespaceSelector {matchNames | any}, jqFilter, allowFailure}) has its own
+  reference in the same module (GrammarFaultV0 / EffectiveV0 / invariant LegacyLoad): declared bindings in declared order,
+  every declared option carried over (event add/update/delete = Added/Modified/Deleted, objectName = name selector,
+  selector = label selector, namespaceSelector.matchNames = namespace name selector, any: true = all namespaces), defaults
+  allowFailure false / queue `main` / all three events / names `schedule`, `onKubernetesEvent`, no first Synchronization,
+  full objects kept, no groups or snapshots. Strata v0kube (one binding with every option combination x onStartup, two
+  bindings with independent options; quick: 500 of 3328), v0sched (<= 2 schedules with name / allowFailure x onStartup x
+  <= 1 onKubernetesEvent binding, 545 documents, complete in quick), v0fault (3 base documents x the fault classes that
+  exist in that format: unknown top-level key, v1 section without configVersion, configVersion: v0, onStartup type, bad
+  crontabs, unknown event names, allowFailure type).
 
 What the oracle demands (real code, harness/cmd/hookconfig)
   every case is rendered as YAML (seeded style: plain or quoted scalars, block or flow leaf sequences, key order) and
@@ -22,7 +33,9 @@ What the oracle demands (real code, harness/cmd/hookconfig)
       neither rejected nor loaded),
     * YAML and JSON give the same verdict and the same projected configuration,
     * expected "reject" (faults, unknown / ambiguous snapshot names)  =>  an error,
-    * expected configuration  =>  no error and the projection (ids, debug names, labels, pointers erased) equals TLC's record.
+    * expected configuration  =>  no error and the projection (ids, debug names, labels, pointers erased) equals TLC's record
+      (signature C10/mismatch<path>; for legacy documents C10/v0-mismatch<path>, with the suffix /default when the
+      differing option is not declared in the document).
   Snapshot name lists that are the expected *set* in another order are a DIVERGENCE note, not a failure (the statement
   speaks of "the snapshots of every kubernetes binding of that group", the order is a convention of the reference).
   Exploration only (not decided by the specification, reported in coverage.byte_level): seeded byte-level corruptions of
@@ -30,6 +43,11 @@ What the oracle demands (real code, harness/cmd/hookconfig)
 
 What is excluded and why
   * a missing configVersion on a document that has only onStartup/schedule is the legacy v0 format, not a fault;
+  * legacy format: unknown keys inside schedule / onKubernetesEvent items (its schema says `type: object` and nothing
+    else: queue, group, includeSnapshotsFrom of a v1 schedule are silently ignored there), invalid label selectors (not
+    validated at load time), a missing `kind`, an explicitly empty `event: []`, `namespaceSelector` with matchNames next
+    to any: true or with any: false alone, empty `schedule: []` / `onKubernetesEvent: []` (accepted) - the repository has
+    no documentation of that format any more and the statement does not decide them;
   * `settings` with only one of its two parameters (the documentation shows both, the loader rejects one alone with a
     misleading message; the statement is silent);
   * undocumented fields the schema accepts (waitForSynchronization, resynchronizationPeriod, matchConditions), empty
@@ -57,7 +75,7 @@ def _is_trivial(case):
     """Trivial = loads, and no binding declares anything beyond its required fields."""
     if case["why"] != "ok":
         return False
-    req = {"kubernetes": {"kind"}, "schedule": {"crontab"}, "kubernetesValidating": {"name", "rules"},
+    req = {"kubernetes": {"kind"}, "onKubernetesEvent": {"kind"}, "schedule": {"crontab"}, "kubernetesValidating": {"name", "rules"},
            "kubernetesMutating": {"name", "rules"}, "kubernetesCustomResourceConversion": {"name", "crdName", "conversions"}}
     doc = case["doc"]
     for sect, need in req.items():
@@ -169,7 +187,7 @@ def check_c10(ctx):
         raise Infra("TLC reported %d distinct cases but printed %d" % (r["distinct"], len(cases)))
     if not cases:
         raise Infra("TLC produced no cases")
-    ctx.log("TLC %s: %d cases (one state per document), DomainWellFormed/FaithfulLoad/Defaults/FaultRejected/GroupSnapshots hold, %.0fs; "
+    ctx.log("TLC %s: %d cases (one state per document), DomainWellFormed/FaithfulLoad/Defaults/LegacyLoad/FaultRejected/GroupSnapshots hold, %.0fs; "
             "as-it-was models violate GroupSnapshots / FaultRejected as expected (%.0fs, %.0fs)"
             % (cfg, len(cases), r["wall_s"], a1["wall_s"], a2["wall_s"]))
     # deterministic order (TLC's print order depends on worker scheduling)
@@ -186,8 +204,12 @@ def check_c10(ctx):
                       (("kubernetes", "kubernetes"), ("schedule", "schedules"), ("kubernetesValidating", "validating"),
                        ("kubernetesMutating", "mutating"), ("kubernetesCustomResourceConversion", "conversion"))
                       for d, b in zip(c["doc"].get(sect, []), c["expect"][eff])))
-    if not by_fault or "ok" not in by_why or not grouped:
-        raise Infra("vacuous case set: %s, %d cases with group-derived snapshots" % (by_stratum, grouped))
+    legacy_opts = sum(1 for c in cases if c["why"] == "ok" and "configVersion" not in c["doc"] and
+                      (any(b.get("allowFailure") == "@true" for b in c["doc"].get("schedule", [])) or
+                       any(len(b) > 1 for b in c["doc"].get("onKubernetesEvent", []))))
+    if not by_fault or "ok" not in by_why or not grouped or not legacy_opts:
+        raise Infra("vacuous case set: %s, %d cases with group-derived snapshots, %d legacy documents with non-default options"
+                    % (by_stratum, grouped, legacy_opts))
 
     n_fuzz = ctx.pick(6000, 60000)
     with ThreadPoolExecutor(max_workers=2) as ex:
@@ -230,6 +252,7 @@ def check_c10(ctx):
     ctx.cov["distinct_nontrivial"] = len(distinct)
     ctx.cov["cases_by_stratum"] = by_stratum
     ctx.cov["loadable_cases_with_group_derived_snapshots"] = grouped
+    ctx.cov["loadable_legacy_documents_with_non_default_options"] = legacy_opts
     ctx.cov["fault_classes"] = len(by_fault)
     ctx.cov["fault_cases"] = sum(by_fault.values())
     ctx.cov["expected_reject_reasons"] = len([k for k in by_why if k != "ok"])
@@ -247,7 +270,10 @@ def check_c10(ctx):
     s2 = first(lambda c: c["stratum"] == "cross" and any(len(k["include"]) > 1 for k in c["expect"]["kubernetes"]))
     s3 = first(lambda c: c["fault"].startswith("kubernetes/labelSelector"))
     s4 = first(lambda c: c["why"] == "include/ambiguous-name")
-    for s in (s1, s2):
+    s5 = first(lambda c: c["stratum"] == "v0sched" and c["why"] == "ok" and len(c["doc"].get("schedule", [])) == 2
+               and c["doc"].get("onKubernetesEvent"))
+    s6 = first(lambda c: c["stratum"] == "v0kube" and c["why"] == "ok" and len(c["doc"]["onKubernetesEvent"][0]) >= 6)
+    for s in (s1, s2, s5, s6):
         if s:
             ctx.sample({"document": s["doc"], "expected_effective": {"kubernetes": s["expect"]["kubernetes"], "schedules": s["expect"]["schedules"]}})
     for s in (s3, s4):
@@ -268,17 +294,20 @@ CHECKS = {"C10": check_c10}
 
 MANIFEST = {
     "C10": dict(
-        text="TLC enumerates the bounded v1 document domain of spec/HookConfig (reference semantics written from the documentation: grammar "
-             "validator, Effective = reject | effective configuration with the documented defaults, group/includeSnapshotsFrom resolution, "
-             "~100 single-fault mutation classes) and checks FaithfulLoad/Defaults/FaultRejected/GroupSnapshots on every case; every case is "
+        text="TLC enumerates the bounded document domain of spec/HookConfig for both config versions (reference semantics written from the "
+             "documentation: grammar validator, Effective = reject | effective configuration with the documented defaults, "
+             "group/includeSnapshotsFrom resolution, ~100 single-fault mutation classes; legacy documents without configVersion with every "
+             "option of that format - schedule name/allowFailure, onKubernetesEvent name/event/selector/objectName/namespaceSelector/jqFilter/"
+             "allowFailure - and ~15 fault classes) and checks FaithfulLoad/Defaults/LegacyLoad/FaultRejected/GroupSnapshots on every case; every case is "
              "rendered as YAML and as JSON, loaded with the real HookConfig.LoadAndValidate, projected to the abstract effective record and "
              "compared with TLC's expectation and with each other; every faulted document must be rejected; panics and hangs are failures.",
         note="Bounds: <= 2 bindings per kind, options on/off in strata (scalar options, selectors, names x groups x includes, schedules/settings, "
-             "webhook bindings coarse), catalogues for valid/invalid crontabs, selectors, versions. The 'any byte string never panics' clause is "
+             "webhook bindings coarse; legacy format: one binding with every option combination, two bindings with independent options, <= 2 "
+             "schedules), catalogues for valid/invalid crontabs, selectors, versions. The 'any byte string never panics' clause is "
              "exploration only: seeded byte-level corruptions (truncate, flip, delete, splice, duplicate keys, YAML tokens) of rendered model "
              "documents with a no-panic / returns / error-or-config oracle, reported in coverage.byte_level; it is not decided by the "
-             "specification. Legacy v0 documents, partial `settings`, undocumented schema fields and container-vs-scalar type errors are outside "
-             "the domain.",
+             "specification. Partial `settings`, undocumented schema fields, container-vs-scalar type errors, and for the legacy format unknown "
+             "keys inside items / selector validation / empty event lists are outside the domain.",
         technique="TLA+ reference function + TLC exhaustive enumeration of the bounded input domain; case replay (YAML and JSON) into the real loader; "
                   "seeded byte-level exploration",
         category="model_checking",
